@@ -132,6 +132,36 @@ def sim_config(pid):
                      [(0, 2), (1, 2)], [])
 
 
+def apalache_c01():
+    """C01_Pos /\\ C01_Mode over unbounded integer coordinates: Init => IndInv and IndInv /\\ Next => IndInv'
+    (specs/MotionInd.tla), discharged symbolically by Apalache. Absence or a time-out of the tool is reported, not failed."""
+    import shutil
+    import subprocess
+    if shutil.which("apalache-mc") is None:
+        return {"status": "apalache-mc not found"}
+    d = os.path.join(workdir(), "apalache")
+    os.makedirs(d, exist_ok=True)
+    shutil.copy(os.path.join(os.path.dirname(os.path.dirname(os.path.abspath(__file__))), "specs", "MotionInd.tla"), d)
+    res = {}
+    t0 = time.time()
+    for name, args in (("base", ["--init=Init", "--inv=IndInv", "--length=0"]), ("step", ["--init=IndInit", "--inv=IndInv", "--length=1"])):
+        try:
+            p = subprocess.run(["apalache-mc", "check"] + args + ["--out-dir=" + os.path.join(d, name), "MotionInd.tla"], cwd=d,
+                               stdout=subprocess.PIPE, stderr=subprocess.STDOUT, text=True, timeout=240)
+        except subprocess.TimeoutExpired:
+            res[name] = "timeout"
+            continue
+        if "EXITCODE: OK" in p.stdout:
+            res[name] = "OK"
+        elif "The outcome is: Error" in p.stdout:
+            raise MachineryError("Apalache: the inductive invariant of MotionInd fails (%s)\n%s" % (name, p.stdout[-1500:]))
+        else:
+            res[name] = "unknown: " + p.stdout[-200:]
+    res["wall_s"] = round(time.time() - t0, 1)
+    res["obligations"] = "Init => IndInv ; IndInv /\\ Next => IndInv'  (coordinates and offsets: all integers; 3 axes)"
+    return res
+
+
 # --------------------------------------------------------------------- replay
 def desc_from_ev(ev):
     a = ev["a"]
@@ -422,6 +452,8 @@ def run(pid, tier, replay_path=None):
             cov["states"] += r.distinct
             cov["transitions"] += r.generated
         cov["exhaustive"] = True
+        if pid == "C01":
+            cov["apalache_inductive_invariant"] = apalache_c01()
         # (2) behaviours of the model replayed on the real code
         root, cfg = sim_config(pid)
         nb = 400 if thorough else 60
